@@ -7,6 +7,7 @@ CONSTANTS
   DeepDepth = 1
   HierDepth = 2
   XDepth = 2
+  SelfDepth = 2
   Wide = FALSE
   EmitCases = FALSE
 INIT Init
